@@ -242,6 +242,22 @@ def oracle(c, res):
     return None
 
 
+def safe_oracle(c, res):
+    if isinstance(res, Exception):
+        return "exception while rendering/observing: %s: %s" % (type(res).__name__, res)
+    try:
+        return oracle(c, res)
+    except Exception as e:  # noqa: BLE001
+        return "exception while evaluating the oracle: %s: %s" % (type(e).__name__, e)
+
+
+def safe_run(c):
+    try:
+        return run_history(c)
+    except Exception as e:  # noqa: BLE001
+        return e
+
+
 def rand_rows(r, n, w):
     return [group(rand_cells(r, r.choice([0, w, w, max(w - 1, 0), r.randint(0, w)]))) for _ in range(n)]
 
@@ -284,16 +300,22 @@ def check(ctx):
     outs = {}
 
     def impl(c):
-        o = run_history(c)
-        outs[id(c)] = o
-        return impl_reply(o)
+        # an exception raised by the real code, or while observing/encoding what it did, is a finding, not a crash
+        try:
+            o = run_history(c)
+            outs[id(c)] = o
+            return impl_reply(o)
+        except Exception as e:  # noqa: BLE001
+            outs[id(c)] = e
+            return "raised %s: %s" % (type(e).__name__, e)
 
     ctx.tie("C07/histories", cases, line, impl, canon, canon)
     for c in cases:
         res = outs[id(c)]
-        scrolled = any(len(o["state"]["scrollback"]) > len(o["before"]["scrollback"]) for o in res if "state" in o)
+        scrolled = (not isinstance(res, Exception) and
+                    any(len(o["state"]["scrollback"]) > len(o["before"]["scrollback"]) for o in res if "state" in o))
         ctx.count(c, nontrivial=scrolled or bool(c["screen"]), tag="renders:%d%s" % (len(c["steps"]) - 2, "+scroll" if scrolled else ""))
-        w = oracle(c, res)
+        w = safe_oracle(c, res)
         if w:
             ctx.violation(w, c, None)
 
@@ -305,7 +327,7 @@ def search(ctx):
     r = ctx.rng
     for _ in range(6000):
         c = rand_history(r, pyte=False)
-        w = oracle(c, run_history(c))
+        w = safe_oracle(c, safe_run(c))
         ctx.count(c, tag="search")
         if w:
             ctx.violation(w, c, None)
